@@ -302,6 +302,16 @@ func (check typecheck) binaryExpr(n *node) error {
 	return check.op(binaryOpPredicates, a, n, c0, t0)
 }
 
+// logical type checks the operands of && and ||, which must be boolean.
+func (check typecheck) logical(n *node) error {
+	for _, c := range n.child[:2] {
+		if c.typ != nil && !isBool(c.typ) {
+			return n.cfgErrorf("invalid operation: operator %v not defined on %s (type %s)", n.action, c.name(), c.typ.id())
+		}
+	}
+	return nil
+}
+
 // roundConst rounds the value of the constant n, which may be an exact typed
 // constant expression, to the type of the non-constant operand o if that is
 // float32 or complex64.
@@ -1139,6 +1149,8 @@ func (check typecheck) convertUntyped(n *node, typ *itype) error {
 	case typ.isNil() && n.typ.isNil():
 		n.typ = typ
 		return nil
+	case n.typ.isNil() && !typ.hasNil():
+		return n.cfgErrorf("cannot use nil as %s value", typ.id())
 	case isNumber(ttyp) || isString(ttyp) || isBoolean(ttyp):
 		ityp = typ
 		rtyp = ttyp
